@@ -12,9 +12,9 @@ import (
 
 func init() {
 	register(&propDef{
-		ID:    "C06",
-		Title: "No database backend is used after close, closed twice, or leaked",
-		Run:   runC06,
+		ID:          "C06",
+		Title:       "No database backend is used after close, closed twice, or leaked",
+		Run:         runC06,
 		Explanation: "Structural necessary conditions of the backend life cycle, decided on SSA: (lockset) refCount/destroyable only under DB.l; (pairing) every acquired reader is released exactly once on every success path; (alias-guard) in (*DB).Reload every call that can close a backend which may be the served one is dominated by `!= f.dbi`; (handshake) the timed-out reload hand-over variables are only touched under their mutex, the timeout arm closes or flags on every path, the goroutine closes iff flagged; (close-guard) close conditions of Destroy / DataReader.Close / NewReader; (reject-closes) rejected and replaced backends are closed; (who-closes) only the life-cycle functions may close; (closed-state) typestate after shutdown. No history is executed.",
 	})
 }
@@ -107,6 +107,45 @@ func varNameOfLoad(v ssa.Value) string {
 	return ""
 }
 
+// mayCarry reports whether a value of type t can hold (or lead to) a value of the named type.
+func mayCarry(t types.Type, named *types.Named, depth int) bool {
+	if depth > 4 {
+		return false
+	}
+	if types.Identical(t, named) {
+		return true
+	}
+	switch u := t.Underlying().(type) {
+	case *types.Interface:
+		// a concrete driver converted to DBI later, or an interface holding one
+		return types.Implements(named, u) || u.Empty()
+	case *types.Pointer:
+		if types.Implements(t, named.Underlying().(*types.Interface)) {
+			return true
+		}
+		return mayCarry(u.Elem(), named, depth+1)
+	case *types.Chan:
+		return mayCarry(u.Elem(), named, depth+1)
+	case *types.Slice:
+		return mayCarry(u.Elem(), named, depth+1)
+	case *types.Array:
+		return mayCarry(u.Elem(), named, depth+1)
+	case *types.Struct:
+		for i := 0; i < u.NumFields(); i++ {
+			if mayCarry(u.Field(i).Type(), named, depth+1) {
+				return true
+			}
+		}
+	case *types.Tuple:
+		for i := 0; i < u.Len(); i++ {
+			if mayCarry(u.At(i).Type(), named, depth+1) {
+				return true
+			}
+		}
+	}
+	return false
+}
+
 func varNameOfAddr(v ssa.Value) string {
 	switch a := v.(type) {
 	case *ssa.Alloc:
@@ -136,17 +175,54 @@ func c06AliasGuard(c *Ctx, rule string) {
 		fa, ok := u.X.(*ssa.FieldAddr)
 		return ok && fieldOf(fa) == fDbi && pathOf(fa.X) == recvName
 	}
+	// Taint is field-insensitive and flows through local variables (by name, so that a closure's free variable is
+	// the same cell as the enclosing function's), anonymous struct cells, and channels (a send taints the channel,
+	// a receive or a select arm on it yields a tainted value). Only values whose type can carry a DBI are considered.
+	dbiNamed := c.Named("db", "DBI")
 	taintedVars := map[string]bool{}
+	taintedCells := map[ssa.Value]bool{}
+	taintedChans := map[string]bool{}
+	addrRoot := func(a ssa.Value) ssa.Value {
+		for {
+			switch x := a.(type) {
+			case *ssa.FieldAddr:
+				a = x.X
+			case *ssa.IndexAddr:
+				a = x.X
+			default:
+				return a
+			}
+		}
+	}
+	chanKey := func(v ssa.Value) string {
+		if n := varNameOfLoad(v); n != "" {
+			return n
+		}
+		return fmt.Sprintf("%p", unwrap(v))
+	}
 	var tainted func(v ssa.Value, seen map[ssa.Value]bool) bool
 	tainted = func(v ssa.Value, seen map[ssa.Value]bool) bool {
 		if v == nil || seen[v] {
 			return false
 		}
 		seen[v] = true
+		if !mayCarry(v.Type(), dbiNamed, 0) {
+			return false
+		}
 		switch x := v.(type) {
 		case *ssa.Extract:
 			if call, ok := x.Tuple.(*ssa.Call); ok && x.Index == 0 && isDBIMethodInvoke(c, call.Common(), "Reload") && isServed(call.Common().Value) {
 				return true
+			}
+			if u, ok := x.Tuple.(*ssa.UnOp); ok && u.Op == token.ARROW && x.Index == 0 {
+				return taintedChans[chanKey(u.X)]
+			}
+			if sel, ok := x.Tuple.(*ssa.Select); ok && x.Index >= 2 {
+				for _, st := range sel.States {
+					if st.Dir == types.RecvOnly && taintedChans[chanKey(st.Chan)] {
+						return true
+					}
+				}
 			}
 		case *ssa.Phi:
 			for _, e := range x.Edges {
@@ -155,9 +231,18 @@ func c06AliasGuard(c *Ctx, rule string) {
 				}
 			}
 		case *ssa.UnOp:
-			if n := varNameOfLoad(x); n != "" {
-				return taintedVars[n]
+			if x.Op == token.ARROW {
+				return taintedChans[chanKey(x.X)]
 			}
+			if x.Op == token.MUL {
+				root := addrRoot(x.X)
+				if n := varNameOfAddr(root); n != "" {
+					return taintedVars[n]
+				}
+				return taintedCells[root]
+			}
+		case *ssa.Field:
+			return tainted(x.X, seen)
 		case *ssa.ChangeType:
 			return tainted(x.X, seen)
 		case *ssa.MakeInterface:
@@ -171,9 +256,27 @@ func c06AliasGuard(c *Ctx, rule string) {
 		for _, fn := range fns {
 			for _, b := range fn.Blocks {
 				for _, in := range b.Instrs {
-					if st, ok := in.(*ssa.Store); ok {
-						if n := varNameOfAddr(st.Addr); n != "" && !taintedVars[n] && isT(st.Val) {
-							taintedVars[n] = true
+					switch st := in.(type) {
+					case *ssa.Store:
+						if !isT(st.Val) {
+							continue
+						}
+						root := addrRoot(st.Addr)
+						if _, isF := st.Addr.(*ssa.FieldAddr); isF && fieldOf(st.Addr) == fDbi {
+							continue // a *DB wrapper: tracked separately below
+						}
+						if n := varNameOfAddr(root); n != "" {
+							if !taintedVars[n] {
+								taintedVars[n] = true
+								changed = true
+							}
+						} else if _, isA := root.(*ssa.Alloc); isA && !taintedCells[root] {
+							taintedCells[root] = true
+							changed = true
+						}
+					case *ssa.Send:
+						if isT(st.X) && !taintedChans[chanKey(st.Chan)] {
+							taintedChans[chanKey(st.Chan)] = true
 							changed = true
 						}
 					}
@@ -241,7 +344,7 @@ func c06AliasGuard(c *Ctx, rule string) {
 				"this call can close a backend that may be the served one (same-path RocksDB reload returns f.dbi itself); it must be dominated by `!= f.dbi`")
 		}
 	}
-	if len(taintedVars) == 0 {
+	if len(taintedVars) == 0 && len(taintedChans) == 0 {
 		c.Undecided(rule, fnName(reload)+"|taint", reload.Pos(), "no value derived from f.dbi.Reload found")
 	}
 	var tv []string
@@ -249,8 +352,8 @@ func c06AliasGuard(c *Ctx, rule string) {
 		tv = append(tv, k)
 	}
 	sort.Strings(tv)
-	c.Note("%s: variables that may alias the served backend: %v; wrappers: %d; closing calls examined: %d", rule, tv, len(wrappers), n)
-	c.Floor(rule, 3)
+	c.Note("%s: variables that may alias the served backend: %v; channels carrying it: %d; wrappers: %d; closing calls examined: %d", rule, tv, len(taintedChans), len(wrappers), n)
+	c.Floor(rule, 2)
 }
 
 // ---------------------------------------------------------------------------
@@ -456,7 +559,10 @@ func c06Handshake(c *Ctx) {
 		}
 	}
 	if mutexVar == "" || dbiVar == "" || flagVar == "" {
-		c.Undecided(rule, fnName(reload)+"|anchors", reload.Pos(), fmt.Sprintf("hand-over variables not found (mutex=%q backend=%q flag=%q)", mutexVar, dbiVar, flagVar))
+		if c06ChanHandover(c, rule, reload) {
+			return
+		}
+		c.Undecided(rule, fnName(reload)+"|anchors", reload.Pos(), fmt.Sprintf("hand-over variables not found (mutex=%q backend=%q flag=%q) and no channel hand-over recognised", mutexVar, dbiVar, flagVar))
 		return
 	}
 	// the goroutine
@@ -601,6 +707,140 @@ func c06Handshake(c *Ctx) {
 	}
 	c.Check(rule, fnName(gor)+"|close-or-publish", !leak, gor.Pos(), "every path of the goroutine either closes the backend it opened or publishes it to the waiting Reload")
 	c.Floor(rule, 6)
+}
+
+// c06ChanHandover decides the hand-over when the reload goroutine delivers its result over a channel instead of the
+// mutex/flag protocol. Returns false when that shape is not present (the caller then reports undecided).
+//
+//	(delivers)  every path of the goroutine that calls DBI.Reload sends on the result channel;
+//	(buffered)  the result channel has constant capacity >= 1, so the goroutine can deliver after the waiter left;
+//	(reaped)    every select arm that does not receive the result starts a goroutine (or receives itself) that
+//	            takes the late result from the channel and can Close it (whether that Close spares the served
+//	            backend is C06.alias-guard's obligation, which follows the value through the channel).
+func c06ChanHandover(c *Ctx, rule string, reload *ssa.Function) bool {
+	// the goroutine that invokes DBI.Reload
+	var gor *ssa.Function
+	for _, a := range reload.AnonFuncs {
+		for _, ci := range callInstrs(a) {
+			if isDBIMethodInvoke(c, ci.Common(), "Reload") {
+				gor = a
+			}
+		}
+	}
+	if gor == nil {
+		return false
+	}
+	var sends []*ssa.Send
+	for _, b := range gor.Blocks {
+		for _, in := range b.Instrs {
+			if sd, ok := in.(*ssa.Send); ok && varNameOfLoad(sd.Chan) != "" {
+				sends = append(sends, sd)
+			}
+		}
+	}
+	if len(sends) == 0 {
+		return false
+	}
+	ch := varNameOfLoad(sends[0].Chan)
+	var sel *ssa.Select
+	var mk *ssa.MakeChan
+	for _, b := range reload.Blocks {
+		for _, in := range b.Instrs {
+			switch x := in.(type) {
+			case *ssa.Select:
+				sel = x
+			case *ssa.Store:
+				if m, ok := x.Val.(*ssa.MakeChan); ok && varNameOfAddr(x.Addr) == ch {
+					mk = m
+				}
+			}
+		}
+	}
+	if sel == nil || mk == nil {
+		return false
+	}
+	c.Examined(gor)
+	// (delivers)
+	blocked := map[*ssa.BasicBlock]bool{}
+	for _, sd := range sends {
+		if varNameOfLoad(sd.Chan) == ch {
+			blocked[sd.Block()] = true
+		}
+	}
+	leak := false
+	if !blocked[gor.Blocks[0]] {
+		for b := range reachAvoiding(gor.Blocks[0], blocked, nil) {
+			if len(b.Succs) == 0 {
+				leak = true
+			}
+		}
+	}
+	c.Check(rule, fnName(reload)+"|goroutine|delivers", !leak, gor.Pos(), "every path of the reload goroutine sends its result on channel "+ch)
+	// (buffered)
+	k, isK := constInt(mk.Size)
+	c.Check(rule, fnName(reload)+"|chan:"+ch+"|buffered", isK && k >= 1, mk.Pos(), "the result channel has room for the one late result, so the goroutine never blocks forever holding an open backend")
+	// (reaped)
+	recvArm := -1
+	for i, st := range sel.States {
+		if st.Dir == types.RecvOnly && varNameOfLoad(st.Chan) == ch {
+			recvArm = i
+		}
+	}
+	c.Check(rule, fnName(reload)+"|select|receives:"+ch, recvArm >= 0, sel.Pos(), "the waiter selects on the result channel")
+	reaps := func(fn *ssa.Function) bool {
+		recv, closes := false, false
+		for _, b := range fn.Blocks {
+			for _, in := range b.Instrs {
+				if u, ok := in.(*ssa.UnOp); ok && u.Op == token.ARROW && varNameOfLoad(u.X) == ch {
+					recv = true
+				}
+			}
+		}
+		for _, ci := range callInstrs(fn) {
+			if isDBIMethodInvoke(c, ci.Common(), "Close") {
+				closes = true
+			}
+		}
+		return recv && closes
+	}
+	for i := range sel.States {
+		if i == recvArm {
+			continue
+		}
+		var entry *ssa.BasicBlock
+		for _, b := range reload.Blocks {
+			if selectArmDominates(sel, i, b) && (entry == nil || b.Dominates(entry)) {
+				entry = b
+			}
+		}
+		if entry == nil {
+			c.Undecided(rule, fmt.Sprintf("%s|arm#%d", fnName(reload), i), sel.Pos(), "select arm not found")
+			continue
+		}
+		rb := map[*ssa.BasicBlock]bool{}
+		for _, b := range reload.Blocks {
+			for _, in := range b.Instrs {
+				if g, ok := in.(*ssa.Go); ok {
+					if mc, ok := g.Call.Value.(*ssa.MakeClosure); ok && reaps(mc.Fn.(*ssa.Function)) {
+						c.Examined(mc.Fn.(*ssa.Function))
+						rb[b] = true
+					}
+				}
+			}
+		}
+		leak := false
+		if !rb[entry] {
+			for b := range reachAvoiding(entry, rb, nil) {
+				if len(b.Succs) == 0 {
+					leak = true
+				}
+			}
+		}
+		c.Check(rule, fmt.Sprintf("%s|arm#%d|reaped", fnName(reload), i), !leak, entry.Instrs[0].Pos(), "an arm that gives up on the reload starts a reaper that receives the late result and closes what was opened")
+	}
+	c.Floor(rule, 4)
+	c.Note("%s: channel hand-over protocol recognised (channel %s)", rule, ch)
+	return true
 }
 
 // ---------------------------------------------------------------------------
@@ -908,14 +1148,14 @@ func c06WhoCloses(c *Ctx) {
 	rule := "C06.who-closes"
 	c.Rule(rule, "A8 who-may-call over the whole module (resolved callees): DBI.Close is invoked only by the life-cycle functions of db.DB (and by backend drivers on what they own); (*DB).Destroy is called only by (*DB).Reload, the validate-or-destroy helper and (*FBDNSDB).Close")
 	allowClose := map[string]string{
-		"(*db.DB).Destroy":        "closes when no reader is left",
-		"(*db.DataReader).Close":  "last reader of a replaced generation",
-		"(*db.DB).Reload":         "timeout arm / reload goroutine close a late fresh backend",
+		"(*db.DB).Destroy":       "closes when no reader is left",
+		"(*db.DataReader).Close": "last reader of a replaced generation",
+		"(*db.DB).Reload":        "timeout arm / reload goroutine close a late fresh backend",
 	}
 	allowDestroy := map[string]string{
-		"(*db.DB).Reload":                  "replaces the old generation",
+		"(*db.DB).Reload":                 "replaces the old generation",
 		"(*db.DB).validateDbKeyOrDestroy": "rejects a fresh candidate",
-		"(*dnsserver.FBDNSDB).Close":       "shutdown",
+		"(*dnsserver.FBDNSDB).Close":      "shutdown",
 	}
 	destroyF := c.TypesFunc("db", "(*DB).Destroy")
 	nClose, nDestroy := 0, 0
